@@ -6,6 +6,7 @@ import AdaptiveProofs.Lemmas.LNDSubSound
 import AdaptiveProofs.Lemmas.LNDSubVerts
 import AdaptiveProofs.Lemmas.LNDDead
 import AdaptiveProofs.Lemmas.LNDFresh
+import AdaptiveProofs.Lemmas.Choose
 
 /-!
 # C04 — LearnerND: one loss per simplex of the data, and ask refines the worst simplex
@@ -547,4 +548,82 @@ theorem lnd_loss_is_max_over_simplices (env : Env α) (hR : ReportExact env) (op
     exact hmax L (List.mem_map.2 ⟨_, get?_mem hL, rfl⟩)
 
 end ordered
+end LND
+
+/-! ## appended: `choose_point_in_simplex` for triangles — the oracle `Env.choose` opened up (dimension 2)
+
+Above, `choose_point_in_simplex` is the oracle `Env.choose`, and the clause "ask proposes a point inside the simplex with
+the largest loss (its centroid, or the midpoint of its longest edge in normalised coordinates)" rests on the hypothesis
+`ChooseGeom`.  `AdaptiveModel/Choose.lean` models the function itself for triangles (`Choose.choosePoint2`, line by
+line, bit-for-bit equal to the real function on 24000 generated cases: `corr_choose.py`); the theorems are proved in
+`Lemmas/Choose.lean` over ordered fields with the `SqrtLaw` of `Props/C20.lean` and re-exported here.  `P2 α = α × α`;
+`scaleT t0 t1 p = (p.1 * t0, p.2 * t1)` is the transform `diag(t0, t1)` (LearnerND passes `diag(1 / width)`);
+`IsLongestEdgeMid m a b c`: `m = (a + b) / 2` and no edge of `a b c` is longer than `a b`. -/
+namespace LND
+section choose2
+open Choose Gen.Prims Prims
+variable {α : Type} [Field α] [LinearOrder α] [IsStrictOrderedRing α]
+
+/-- C04.choose.a  "its centroid, or the midpoint of its longest edge in normalised coordinates": in transformed
+coordinates the chosen point is the centroid of the transformed triangle, or the midpoint of an edge of the transformed
+triangle at least as long as the other two (first/second/third alternative of the edge: `p0 p1`, `p0 p2`, `p1 p2`). -/
+theorem choose2_centroid_or_longest_edge_midpoint (sqrt : α → α) (hs : SqrtLaw sqrt) (eps : α) (p0 p1 p2 : P2 α)
+    (t0 t1 : α) (h0 : t0 ≠ 0) (h1 : t1 ≠ 0) :
+    scaleT t0 t1 (choosePoint2 sqrt eps p0 p1 p2 (some (t0, t1)))
+      = centroid (scaleT t0 t1 p0) (scaleT t0 t1 p1) (scaleT t0 t1 p2) ∨
+    IsLongestEdgeMid (scaleT t0 t1 (choosePoint2 sqrt eps p0 p1 p2 (some (t0, t1))))
+      (scaleT t0 t1 p0) (scaleT t0 t1 p1) (scaleT t0 t1 p2) ∨
+    IsLongestEdgeMid (scaleT t0 t1 (choosePoint2 sqrt eps p0 p1 p2 (some (t0, t1))))
+      (scaleT t0 t1 p0) (scaleT t0 t1 p2) (scaleT t0 t1 p1) ∨
+    IsLongestEdgeMid (scaleT t0 t1 (choosePoint2 sqrt eps p0 p1 p2 (some (t0, t1))))
+      (scaleT t0 t1 p1) (scaleT t0 t1 p2) (scaleT t0 t1 p0) :=
+  Choose.choose2_centroid_or_longest_edge_midpoint sqrt hs eps p0 p1 p2 t0 t1 h0 h1
+
+/-- C04.choose.a'  the same without a transform -/
+theorem choose2_centroid_or_longest_edge_midpoint_none (sqrt : α → α) (hs : SqrtLaw sqrt) (eps : α) (p0 p1 p2 : P2 α) :
+    choosePoint2 sqrt eps p0 p1 p2 none = centroid p0 p1 p2 ∨
+    IsLongestEdgeMid (choosePoint2 sqrt eps p0 p1 p2 none) p0 p1 p2 ∨
+    IsLongestEdgeMid (choosePoint2 sqrt eps p0 p1 p2 none) p0 p2 p1 ∨
+    IsLongestEdgeMid (choosePoint2 sqrt eps p0 p1 p2 none) p1 p2 p0 :=
+  Choose.choose2_centroid_or_longest_edge_midpoint_none sqrt hs eps p0 p1 p2
+
+/-- C04.choose.b  in ORIGINAL coordinates, every triangle: the chosen point is `(p0 + p1 + p2) / 3` or the midpoint of
+two vertices -/
+theorem choose2_weights (sqrt : α → α) (hs : SqrtLaw sqrt) (eps : α) (p0 p1 p2 : P2 α) (t : Option (P2 α))
+    (ht : ∀ t0 t1, t = some (t0, t1) → t0 ≠ 0 ∧ t1 ≠ 0) :
+    ∃ l : α × α × α, ChoiceWeights l ∧ choosePoint2 sqrt eps p0 p1 p2 t = comb l p0 p1 p2 :=
+  Choose.choose2_weights sqrt hs eps p0 p1 p2 t ht
+
+/-- C04.choose.c  "a point inside the simplex": for a non-degenerate triangle the chosen point is accepted by
+`point_in_simplex` for its own simplex, with every tolerance `eps' ≥ 0` -/
+theorem choose2_in_closed_triangle (sqrt : α → α) (hs : SqrtLaw sqrt) (eps : α) (p0 p1 p2 : P2 α) (t : Option (P2 α))
+    (ht : ∀ t0 t1, t = some (t0, t1) → t0 ≠ 0 ∧ t1 ≠ 0) (hA : crossP p0 p1 p2 ≠ 0) (eps' : α) (he : 0 ≤ eps') :
+    point_in_simplex2 (choosePoint2 sqrt eps p0 p1 p2 t).1 (choosePoint2 sqrt eps p0 p1 p2 t).2
+      p0.1 p0.2 p1.1 p1.2 p2.1 p2.2 eps' = true :=
+  Choose.choose2_in_closed_triangle sqrt hs eps p0 p1 p2 t ht hA eps' he
+
+/-- C04.choose.d  the clause `ChooseGeom.inSimplex` DERIVED for dimension 2: if the oracles `choose` / `pis` of an `Env`
+answer, on triangles, what `choose_point_in_simplex` / `point_in_simplex` compute from the coordinates `coord` of the
+points (transform `t`, tolerances `eps`, `eps' ≥ 0`), then `point_in_simplex` accepts the point chosen in a
+non-degenerate triangle for that triangle. -/
+theorem chooseGeom_inSimplex_dim2 {β : Type} (env : Env β) (coord : Pt → P2 α) (sqrt : α → α) (hs : SqrtLaw sqrt)
+    (eps eps' : α) (he : 0 ≤ eps') (t : Option (P2 α)) (ht : ∀ t0 t1, t = some (t0, t1) → t0 ≠ 0 ∧ t1 ≠ 0)
+    (hchoose : ∀ a b c, coord (env.choose [a, b, c]) = choosePoint2 sqrt eps (coord a) (coord b) (coord c) t)
+    (hpis : ∀ q a b c, env.pis q [a, b, c] = point_in_simplex2 (coord q).1 (coord q).2 (coord a).1 (coord a).2
+      (coord b).1 (coord b).2 (coord c).1 (coord c).2 eps')
+    (a b c : Pt) (hA : crossP (coord a) (coord b) (coord c) ≠ 0) :
+    env.pis (env.choose [a, b, c]) [a, b, c] = true := by
+  rw [hpis, hchoose]
+  exact Choose.choose2_in_closed_triangle sqrt hs eps _ _ _ t ht hA eps' he
+
+/-- C04.choose.e  which of the two: (non-degenerate triangle, tolerance `0`) the centroid — of the ORIGINAL triangle —
+exactly when the TRANSFORMED triangle has no obtuse angle; with the code's tolerance `eps ≥ 0` "no obtuse angle" still
+implies the centroid (`Choose.choose2_centroid_of_not_obtuse`), the exact condition is `Choose.centerInside_iff_eps` -/
+theorem choose2_centroid_iff_not_obtuse (sqrt : α → α) (hs : SqrtLaw sqrt) (p0 p1 p2 : P2 α) (t0 t1 : α)
+    (h0 : t0 ≠ 0) (h1 : t1 ≠ 0) (hA : crossP p0 p1 p2 ≠ 0) :
+    choosePoint2 sqrt 0 p0 p1 p2 (some (t0, t1)) = centroid p0 p1 p2 ↔
+      NotObtuse (scaleT t0 t1 p0) (scaleT t0 t1 p1) (scaleT t0 t1 p2) :=
+  Choose.choose2_centroid_iff_not_obtuse sqrt hs p0 p1 p2 t0 t1 h0 h1 hA
+
+end choose2
 end LND
